@@ -1,7 +1,9 @@
 package main
 
 import (
+	"errors"
 	"fmt"
+	"sort"
 	"sync"
 	"time"
 
@@ -39,6 +41,9 @@ type sweepCase struct {
 	stalled bool          // the connection is stalled during the first sweep (Send blocks), see stalledSweepWorld
 	gate    chan struct{} // closed to resume the connection
 	extra   []string      // names beyond histUniverse (eds)
+	// failover: the stream fails while the first request of the sweep is inside Send (see failoverSweepWorld)
+	failover bool
+	idle     []string
 }
 
 // stalledSweepWorld: more idle resources than the request channel holds, and a connection that stalls (Send blocks)
@@ -86,6 +91,39 @@ func stalledSweepWorld(c *ctx, n int) *sweepCase {
 	return sc
 }
 
+// failoverSweepWorld: forty idle endpoint sets and one in use; the connection stalls just before the sweep, so the first
+// withdrawal is inside Send while the sweep produces the others; then that Send fails, the stream breaks and the client
+// reconnects. Whatever was in flight or queued, the control plane's last word on the new stream names what is still
+// subscribed and nothing that was evicted ("withdrawn from the interest set - a request without it is sent").
+func failoverSweepWorld(c *ctx, n int) *sweepCase {
+	w, err := newWorld(worldOpts{ndsNotRequired: true, fetchTimeout: time.Millisecond})
+	if err != nil {
+		fmt.Println("C19: world:", err)
+		return nil
+	}
+	sc := &sweepCase{h: &histRun{c: c, w: w}, t0: time.Now(), ticks: 1, stalled: true, failover: true}
+	var names []string
+	for i := 0; i < n; i++ {
+		names = append(names, fmt.Sprintf("f%03d", i))
+	}
+	all := append(append([]string{}, names...), "used")
+	var anys []*anypb.Any
+	for _, nm := range all {
+		_ = w.get(rtOf("eds"), nm)
+		anys = append(anys, anyStamped("eds", nm, nm+"#1"))
+	}
+	w.push(mkResp(urlOf("eds"), "v1", "n1", anys))
+	for _, nm := range all {
+		_ = w.get(rtOf("eds"), nm)
+	}
+	for _, nm := range names {
+		w.m.VerifBackdate(rtOf("eds"), nm, 40*time.Second)
+	}
+	sc.idle = names
+	sc.entries = append(sc.entries, sweepEntry{"eds", "used", "fresh"})
+	return sc
+}
+
 func (sc *sweepCase) getStep(rt, n string, now int) {
 	var res string
 	h := sc.h
@@ -110,6 +148,8 @@ func runC19(c *ctx) {
 	// the world whose connection stalls during its sweep is set up alongside the others (its set-up takes a few seconds)
 	ssCh := make(chan *sweepCase, 1)
 	go func() { ssCh <- stalledSweepWorld(c, 1100) }()
+	foCh := make(chan *sweepCase, 1)
+	go func() { foCh <- failoverSweepWorld(c, 40) }()
 	for i := 0; i < nWorlds; i++ {
 		nds := i%2 == 0
 		w, err := newWorld(worldOpts{ndsNotRequired: !nds, fetchTimeout: 3 * time.Millisecond})
@@ -224,6 +264,18 @@ func runC19(c *ctx) {
 		cases = append([]*sweepCase{ss}, cases...) // created first: its tick comes first
 		c.count("worlds.stalled-sweep", 1)
 	}
+	if fo := <-foCh; fo != nil {
+		// its creation time decides its place (the cases are handled in creation order)
+		pos := len(cases)
+		for i, sc := range cases {
+			if fo.t0.Before(sc.t0) {
+				pos = i
+				break
+			}
+		}
+		cases = append(cases[:pos], append([]*sweepCase{fo}, cases[pos:]...)...)
+		c.count("worlds.failover-sweep", 1)
+	}
 	for tick := 1; tick <= ticks; tick++ {
 		// just before the tick: look the fresh entries up again
 		for _, sc := range cases {
@@ -253,6 +305,12 @@ func runC19(c *ctx) {
 		}
 		wg.Wait()
 		for _, sc := range cases {
+			if sc.failover {
+				if tick == 1 {
+					sc.failoverObserve(c)
+				}
+				continue
+			}
 			if sc.stalled && sc.gate != nil {
 				// the cleaner is parked inside the sweep (it holds the manager lock, the channel is full): resume
 				sc.h.w.ads.mu.Lock()
@@ -278,6 +336,10 @@ func runC19(c *ctx) {
 	}
 	// a later lookup of an evicted name subscribes again and obtains the current value
 	for ci, sc := range cases {
+		if sc.failover {
+			sc.h.w.close()
+			continue
+		}
 		k := 0
 		for _, e := range sc.entries {
 			if sc.stalled || k == 2 {
@@ -342,4 +404,51 @@ func (sc *sweepCase) lastMark() int {
 		}
 	}
 	return n
+}
+
+// failoverObserve: the first withdrawal of the sweep is inside the stalled Send; that Send now fails, the stream breaks,
+// the client reconnects; what does the control plane hold in the end?
+func (sc *sweepCase) failoverObserve(c *ctx) {
+	w := sc.h.w
+	w.ads.mu.Lock()
+	for _, st := range w.ads.streams {
+		st.sendFail = true
+		st.sendGate = nil
+	}
+	w.ads.mu.Unlock()
+	if sc.gate != nil {
+		close(sc.gate)
+		sc.gate = nil
+	}
+	w.feedErr(errors.New("verif: connection reset by peer"))
+	w.waitFor(func() bool {
+		w.ads.mu.Lock()
+		defer w.ads.mu.Unlock()
+		return len(w.ads.streams) >= 2
+	}, 5*time.Second)
+	w.settle()
+	_, _ = w.m.VerifSnapshot()
+	w.settle()
+	snap, _ := w.m.VerifSnapshot()
+	var cached []string
+	for n := range snap[rtOf("eds")] {
+		cached = append(cached, n)
+	}
+	sort.Strings(cached)
+	var last []string
+	lastNonce, lastSid, nOnNew := "", 0, 0
+	w.ads.mu.Lock()
+	streams := len(w.ads.streams)
+	for _, q := range w.ads.log {
+		if q.req.TypeUrl == urlOf("eds") && q.sid == streams {
+			last = append([]string{}, q.req.ResourceNames...)
+			lastNonce, lastSid = q.req.ResponseNonce, q.sid
+			nOnNew++
+		}
+	}
+	w.ads.mu.Unlock()
+	sort.Strings(last)
+	c.count("ticks", 1)
+	c.emit(obj{"op": "sweep-failover", "idle": sc.idle, "used": "used", "now": 130, "idleSince": 60, "usedSince": 129,
+		"obs": obj{"interest": w.m.VerifInterest()[rtOf("eds")], "cached": cached, "streams": streams, "lastReqNames": last, "lastReqNonce": lastNonce, "lastReqStream": lastSid, "edsRequestsOnNewStream": nOnNew}})
 }
